@@ -111,7 +111,8 @@ def run(chk):
                                 if wn in got or an in got:
                                     continue
                                 # missing product: only allowed where the path says it is the zero cube
-                                eqs = [c for c in o.pc if isinstance(c, W) and c.val is None and c.bits[0] is not None and c.bits[0][0] and any(("eq(%s" % nm) in B.ATOMS.name(x) for x in c.bits[0][0] for nm in (wn, an))]
+                                # a test on that product (== zero cube, is_zero, ...) appears on this path
+                                eqs = [c for c in o.pc if isinstance(c, W) and c.val is None and c.bits[0] is not None and c.bits[0][0] and any(nm in B.ATOMS.name(x) for x in c.bits[0][0] for nm in (wn, an))]
                                 if not eqs:
                                     v, d = REFUTED, "the product %s is not formed" % wn
                                     break
